@@ -85,12 +85,30 @@ theorem planOK_valid (old new : List (List Int)) (plan : List (List (List Int)))
     plan ≠ [] ∧ plan.getLast? = some new ∧ ∀ s ∈ plan, s.map isum = new.map isum ∧ NonnegChunks s :=
   Dask.Lemmas.RechunkPlan.planOK_valid old new plan ho hn hs h
 
+/-- the EXECUTABLE `plan_rechunk` model, every oracle value (candidate order, chunk limits, max numbers,
+nsteps, counts — no relation needed): a returned plan ends in `new` and every step is a chunking of the
+same shape (same rank, positive widths, same per-axis totals) -/
+theorem plan_valid (old new : List (List Int)) (itemsize threshold limBytes dl : Int) (fuel : Nat)
+    (os : List PassOracle) (bos : List BDOracle) (plan : List (List (List Int))) (rel : Bool)
+    (hpo : PosChunks old) (hpn : PosChunks new) (hshape : old.map isum = new.map isum)
+    (h : planRechunk old new itemsize threshold limBytes dl fuel os bos = some (plan, rel)) :
+    plan.getLast? = some new ∧
+      ∀ s ∈ plan, s.length = new.length ∧ PosChunks s ∧ s.map isum = new.map isum :=
+  Dask.Lemmas.RechunkPlan.plan_valid old new itemsize threshold limBytes dl fuel os bos plan rel hpo hpn hshape h
+
 /-- the driver's bounded search `rp.reach` (run on every axis of every real plan step) is sound
 for the step relation -/
 theorem reachDepth_sound (old new c : List Int) (maxDepth k : Nat)
     (h : reachDepth old new c maxDepth = some k) : StepAxis old new c :=
   Dask.Lemmas.RechunkPlan.reachDepth_sound old new c maxDepth k h
 
+open Dask.Lemmas.RechunkPlan (ex_plan ex_pos1 ex_pos2) in
+example : ([[[4]]] : List (List (List Int))).getLast? = some [[4]] ∧
+    ∀ s ∈ [[[4]]], s.length = [[(4 : Int)]].length ∧ PosChunks s ∧ s.map isum = [[(4 : Int)]].map isum :=
+  plan_valid [[2,2]] [[4]] 8 4 64 100 3 [] [] _ _ ex_pos1 ex_pos2 (by decide) ex_plan
+open Dask.Lemmas.RechunkPlan (ex_plan ex_pos1 ex_pos2) in
+example : ∀ s ∈ [[[4]]], largestBlock s ≤ max (max (pyDiv 64 8) (largestBlock [[2,2]])) (largestBlock [[(4 : Int)]]) :=
+  Dask.Lemmas.RechunkPlan.plan_budget [[2,2]] [[4]] 8 4 64 100 3 [] [] _ (by decide) ex_pos1 ex_pos2 rfl ex_plan
 example : StepAxis [4, 4, 6, 3] [6, 4, 1, 5, 1] [6, 5, 5, 1] := by
   have : mergeToNumber [6, 4, 1, 5, 1] 4 = [6, 5, 5, 1] := by decide
   rw [← this]; exact .merge _ 4 (by decide) .new
